@@ -579,6 +579,7 @@ pub fn report_stuck_and_exit(prop: &str, tier: Tier, seed: u64, op: &str, family
     let _ = std::fs::write(ev_dir.join(format!("{}.json", prop)), serde_json::to_string_pretty(&evidence).unwrap_or_default());
     match mem_bytes {
         Some(b) => println!("violation-detail: [{}] {} bytes requested on a {}-byte {} input", signature, b, input.len(), family),
+        None if family.is_empty() => println!("violation-detail: [{}] {} s of CPU in one call of the seed-{} workload (the replay file re-runs it)", signature, cpu_s, seed),
         None => println!("violation-detail: [{}] {} s of CPU on a {}-byte {} input", signature, cpu_s, input.len(), family),
     }
     println!("VIOLATION property={} replay={}", prop, path.display());
